@@ -888,6 +888,58 @@ def vam(ctx):
     ok = bool(elapsed_sites) and tg_ok and max(tg_vals) <= tmax
     ctx.ob("C10.vam-max", cb.short(), "elapsed-trigger", ok, "a report arriving T_GenVam (<= T_GenVamMax) after the last VAM triggers a VAM", cb.loc)
 
+    # ---- the references of the dynamics triggers are the values just sent, converted back to the unit the report uses:
+    # speedValue / 100 (0.01 m/s), heading value / 10 (0.1 degree), latitude / longitude / 10^7.  A reference kept in another
+    # scale makes `abs(report - reference)` exceed its threshold on every report: VAMs leave at the report rate.
+    REF_UNITS = {"last_vam_speed": ("speedValue", 100), "last_vam_heading": ("value", 10)}
+    snv = tm.methods.get("send_next_vam")
+    if snv is None:
+        raise AnalysisError("C10: VAMTransmissionManagement.send_next_vam vanished")
+    sfl = ctx.flows.get(snv)
+    n_ref = 0
+
+    def unit_ok(v, key, coef):
+        if not (isinstance(v, ast.BinOp) and isinstance(v.op, ast.Div)):
+            return False, f"`{sem.cx(v)[:60]}` is not <field> / {coef}"
+        k = P.try_fold(snv.module, v.right)
+        last = v.left.slice if isinstance(v.left, ast.Subscript) else None
+        lk = P.try_fold(snv.module, last) if last is not None else None
+        if lk != key:
+            return False, f"reads `{lk}`, the reference needs `{key}`"
+        if not (isinstance(k, (int, float)) and abs(k - coef) < 1e-9):
+            return False, f"`{key}` is divided by {k}; its unit needs {coef}"
+        return True, f"{key} / {coef}"
+    for m_, node, v in stores(tm, "last_vam_speed") + stores(tm, "last_vam_heading"):
+        if v is None or is_none(v) or m_.name == "__init__" or id(node) not in ctx.flows.get(m_).before:
+            continue
+        attr = dotted(node.targets[0])[5:] if isinstance(node, ast.Assign) else dotted(node.target)[5:]
+        fl_ = ctx.flows.get(m_)
+        xv = fl_.expand(v, fl_.before[id(node)])
+        if isinstance(xv, ast.Constant):
+            continue
+        n_ref += 1
+        ok_u, why_u = unit_ok(xv, *REF_UNITS[attr])
+        ctx.ob("C10.vam-min", m_.short(), f"reference-unit:{attr}", ok_u,
+               f"self.{attr} keeps the value just sent in the report's unit ({why_u})" if ok_u else
+               f"self.{attr} is kept in another scale than the report's ({why_u}): the dynamics trigger compares a report in m/s / degrees with a "
+               "reference that is off by a power of ten and fires on every report - VAMs leave faster than T_GenVamMin", f"{m_.module.rel}:{node.lineno}")
+    for m_, node, v in stores(tm, "last_sent_position"):
+        if v is None or is_none(v) or m_.name == "__init__" or id(node) not in ctx.flows.get(m_).before:
+            continue
+        fl_ = ctx.flows.get(m_)
+        xv = fl_.expand(v, fl_.before[id(node)])
+        if not (isinstance(xv, ast.Tuple) and len(xv.elts) == 2):
+            continue
+        n_ref += 1
+        res = [unit_ok(e_, k_, 10 ** 7) for e_, k_ in zip(xv.elts, ("latitude", "longitude"))]
+        ok_u = all(r[0] for r in res)
+        ctx.ob("C10.vam-min", m_.short(), "reference-unit:last_sent_position", ok_u,
+               "the reference position is (latitude, longitude) / 10^7 of the VAM just sent" if ok_u else
+               "the reference position is not (latitude / 10^7, longitude / 10^7) of the VAM just sent: " + "; ".join(r[1] for r in res if not r[0]),
+               f"{m_.module.rel}:{node.lineno}")
+    if n_ref < 3:
+        raise AnalysisError(f"C10: only {n_ref} trigger references stored after a VAM (confirmed: speed, heading, position)")
+
     # ---- LF container: the guard of the attachment, interpreted on representatives (first VAM / 2 s boundary / cluster operation)
     lf = tm.methods["_attach_lf_container_if_due"]
     fl2 = ctx.flows.get(lf)
